@@ -85,7 +85,11 @@ class TwoRateTokenBucket(Device):
                     yield env.timeout(
                         (packet.size - self.current_bucket_peak) * 8.0 / self.pir
                     )
-                    self.current_bucket_peak = 0.0
+                    # credit the tokens of the time that really passed (the
+                    # clock rounds `now + wait`; dropped remainders add up)
+                    self.current_bucket_peak += (
+                        self.pir * (env.now - self.update_time) / 8.0 - packet.size
+                    )
                     packet.color = "red"
                     self.update_time = env.now
                 elif packet.size > self.current_bucket_commit:
@@ -103,7 +107,11 @@ class TwoRateTokenBucket(Device):
                     yield env.timeout(
                         (packet.size - self.current_bucket_commit) * 8.0 / self.cir
                     )
-                    self.current_bucket_commit = 0.0
+                    # credit the tokens of the time that really passed (the
+                    # clock rounds `now + wait`; dropped remainders add up)
+                    self.current_bucket_commit += (
+                        self.cir * (env.now - self.update_time) / 8.0 - packet.size
+                    )
                     packet.color = "yellow"
                     self.update_time = env.now
                 else:
